@@ -13,17 +13,24 @@ pub open spec fn count_state<const K: usize>(a: AArena<K>, p: usize, lo: int, wa
     if lo >= K || lo < 0 { 0 } else { (if kid_in_state(a, p, lo, want) { 1nat } else { 0nat }) + count_state(a, p, lo + 1, want) }
 }
 // a1 is a0 with the children of p at the slots in L (and everything below them) removed, and nothing else changed
-#[verifier::opaque]
-pub open spec fn removed_set<const K: usize>(a0: AArena<K>, a1: AArena<K>, p: usize, ls: ISet<int>) -> bool {
+pub open spec fn rs_frame<const K: usize>(a0: AArena<K>, a1: AArena<K>, p: usize, ls: ISet<int>) -> bool {
     &&& a0.dom().contains(p) && a1.dom().contains(p)
     &&& forall|i: usize| #![trigger a1.dom().contains(i)] a1.dom().contains(i) ==> a0.dom().contains(i)
     &&& forall|l: int| 0 <= l < K ==> #[trigger] a1[p].children[l] == (if ls.contains(l) { None } else { a0[p].children[l] })
     &&& a1[p].parent == a0[p].parent && a1[p].value == a0[p].value && (a1[p].isleaf == a0[p].isleaf || a1[p].isleaf == no_kids(a1[p]))
     &&& forall|i: usize| #![trigger a1[i]] a1.dom().contains(i) && i != p ==> a1[i] == a0[i]
-    // the removed children are gone ...
-    &&& forall|l: int| 0 <= l < K && ls.contains(l) && (#[trigger] a0[p].children[l]) is Some ==> !a1.dom().contains(a0[p].children[l].unwrap())
-    // ... and every node that is not one of them or below one of them is kept
-    &&& forall|i: usize| #![trigger a1.dom().contains(i)] a0.dom().contains(i) && !below_removed(a0, p, ls, i) ==> a1.dom().contains(i)
+}
+// the removed children are gone ...
+pub open spec fn rs_gone<const K: usize>(a0: AArena<K>, a1: AArena<K>, p: usize, ls: ISet<int>) -> bool {
+    forall|l: int| 0 <= l < K && ls.contains(l) && (#[trigger] a0[p].children[l]) is Some ==> !a1.dom().contains(a0[p].children[l].unwrap())
+}
+// ... and every node that is not one of them or below one of them is kept
+pub open spec fn rs_kept<const K: usize>(a0: AArena<K>, a1: AArena<K>, p: usize, ls: ISet<int>) -> bool {
+    forall|i: usize| #![trigger a1.dom().contains(i)] a0.dom().contains(i) && !below_removed(a0, p, ls, i) ==> a1.dom().contains(i)
+}
+#[verifier::opaque]
+pub open spec fn removed_set<const K: usize>(a0: AArena<K>, a1: AArena<K>, p: usize, ls: ISet<int>) -> bool {
+    rs_frame(a0, a1, p, ls) && rs_gone(a0, a1, p, ls) && rs_kept(a0, a1, p, ls)
 }
 pub open spec fn below_removed<const K: usize>(a0: AArena<K>, p: usize, ls: ISet<int>, i: usize) -> bool {
     exists|l: int| 0 <= l < K && ls.contains(l) && (#[trigger] a0[p].children[l]) is Some && (i == a0[p].children[l].unwrap() || desc(a0, a0[p].children[l].unwrap(), i))
@@ -69,11 +76,10 @@ pub proof fn lemma_only_slot<const K: usize>(nd: TreeNode<AffContent, K>, lo: in
 }
 // parent pointers agree, so descendants in the pruned arena are descendants in the original
 pub proof fn lemma_desc_back<const K: usize>(a0: AArena<K>, a1: AArena<K>, p: usize, ls: ISet<int>, c: usize, i: usize, f: nat)
-    requires removed_set(a0, a1, p, ls), is_desc(a1, c, i, f)
+    requires rs_frame(a0, a1, p, ls), is_desc(a1, c, i, f)
     ensures is_desc(a0, c, i, f)
     decreases f
 {
-    reveal(removed_set);
     assert(a1.dom().contains(i));
     assert(a1[i].parent == a0[i].parent) by { if i != p { assert(a1[i] == a0[i]); } }
     if a1[i].parent.unwrap() != c { lemma_desc_back(a0, a1, p, ls, c, a1[i].parent.unwrap(), (f - 1) as nat); }
@@ -85,28 +91,35 @@ pub proof fn lemma_removed_init<const K: usize>(a0: AArena<K>, p: usize)
     reveal(removed_set);
 }
 // one more child removed
-pub proof fn lemma_removed_step<const K: usize>(a0: AArena<K>, a1: AArena<K>, a2: AArena<K>, root: Option<usize>, p: usize, ls: ISet<int>, l: usize)
-    requires wf_at(a0, root), wf_at(a1, root), removed_set(a0, a1, p, ls), !ls.contains(l as int), child_removed(a1, a2, p, l)
-    ensures removed_set(a0, a2, p, ls.insert(l as int))
+pub proof fn lemma_removed_step_frame<const K: usize>(a0: AArena<K>, a1: AArena<K>, a2: AArena<K>, p: usize, ls: ISet<int>, l: usize)
+    requires rs_frame(a0, a1, p, ls), !ls.contains(l as int), child_removed(a1, a2, p, l), !desc(a1, a1[p].children[l as int].unwrap(), p), a1[p].children[l as int] != Some(p)
+    ensures rs_frame(a0, a2, p, ls.insert(l as int))
 {
-    reveal(removed_set);
     let ls2 = ls.insert(l as int);
-    let c = a1[p].children[l as int].unwrap();
-    assert(a0[p].children[l as int] == Some(c));
-    let d = choose|d: Map<usize, nat>| ranked(a1, d);
-    assert(a1.dom().contains(c) && a1[c].parent == Some(p));
-    assert(!desc(a1, c, p)) by {
-        if desc(a1, c, p) { let f = choose|f: nat| is_desc(a1, c, p, f); lemma_desc_rank(a1, d, c, p, f); }
-    }
     assert(a2.dom().contains(p));
     assert forall|k: int| 0 <= k < K implies #[trigger] a2[p].children[k] == (if ls2.contains(k) { None } else { a0[p].children[k] }) by {
         assert(a2[p].children@[k] == a1[p].children@.update(l as int, None)[k]);
         assert(a1[p].children[k] == (if ls.contains(k) { None } else { a0[p].children[k] }));
     }
     assert forall|i: usize| #![trigger a2[i]] a2.dom().contains(i) && i != p implies a2[i] == a0[i] by { assert(a1.dom().contains(i)); assert(a1[i] == a0[i]); }
+}
+pub proof fn lemma_removed_step_gone<const K: usize>(a0: AArena<K>, a1: AArena<K>, a2: AArena<K>, p: usize, ls: ISet<int>, l: usize)
+    requires rs_frame(a0, a1, p, ls), rs_gone(a0, a1, p, ls), !ls.contains(l as int), child_removed(a1, a2, p, l)
+    ensures rs_gone(a0, a2, p, ls.insert(l as int))
+{
+    let ls2 = ls.insert(l as int);
+    assert(a1[p].children[l as int] == a0[p].children[l as int]);
     assert forall|k: int| 0 <= k < K && ls2.contains(k) && (#[trigger] a0[p].children[k]) is Some implies !a2.dom().contains(a0[p].children[k].unwrap()) by {
         if k == l { } else { assert(!a1.dom().contains(a0[p].children[k].unwrap())); }
     }
+}
+pub proof fn lemma_removed_step_kept<const K: usize>(a0: AArena<K>, a1: AArena<K>, a2: AArena<K>, p: usize, ls: ISet<int>, l: usize)
+    requires rs_frame(a0, a1, p, ls), rs_kept(a0, a1, p, ls), !ls.contains(l as int), child_removed(a1, a2, p, l)
+    ensures rs_kept(a0, a2, p, ls.insert(l as int))
+{
+    let ls2 = ls.insert(l as int);
+    let c = a1[p].children[l as int].unwrap();
+    assert(a1[p].children[l as int] == a0[p].children[l as int]);
     assert forall|i: usize| #![trigger a2.dom().contains(i)] a0.dom().contains(i) && !below_removed(a0, p, ls2, i) implies a2.dom().contains(i) by {
         assert(!below_removed(a0, p, ls, i)) by {
             if below_removed(a0, p, ls, i) {
@@ -116,9 +129,26 @@ pub proof fn lemma_removed_step<const K: usize>(a0: AArena<K>, a1: AArena<K>, a2
         }
         assert(a1.dom().contains(i));
         assert(ls2.contains(l as int));
+        assert(a0[p].children[l as int] is Some);
         assert(i != c && !desc(a0, c, i));
         if desc(a1, c, i) { let f = choose|f: nat| is_desc(a1, c, i, f); lemma_desc_back(a0, a1, p, ls, c, i, f); }
     }
+}
+pub proof fn lemma_removed_step<const K: usize>(a0: AArena<K>, a1: AArena<K>, a2: AArena<K>, root: Option<usize>, p: usize, ls: ISet<int>, l: usize)
+    requires wf_at(a0, root), wf_at(a1, root), removed_set(a0, a1, p, ls), !ls.contains(l as int), child_removed(a1, a2, p, l)
+    ensures removed_set(a0, a2, p, ls.insert(l as int))
+{
+    reveal(removed_set);
+    let c = a1[p].children[l as int].unwrap();
+    let d = choose|d: Map<usize, nat>| ranked(a1, d);
+    assert(a1.dom().contains(c) && a1[c].parent == Some(p));
+    assert(d[p] < d[c]);
+    assert(!desc(a1, c, p)) by {
+        if desc(a1, c, p) { let f = choose|f: nat| is_desc(a1, c, p, f); lemma_desc_rank(a1, d, c, p, f); }
+    }
+    lemma_removed_step_frame(a0, a1, a2, p, ls, l);
+    lemma_removed_step_gone(a0, a1, a2, p, ls, l);
+    lemma_removed_step_kept(a0, a1, a2, p, ls, l);
 }
 // what the loop needs to know about the pruned arena
 pub proof fn lemma_removed_facts<const K: usize>(a0: AArena<K>, a1: AArena<K>, p: usize, ls: ISet<int>)
